@@ -413,18 +413,19 @@ func c02Active(c *eng.Ctx, d *dbInfo, k *kvAnalysis) {
 		case w.Loc == "secret.ActiveVersion" && w.Kind == "store":
 			n++
 			ok := false
-			for _, cond := range eng.FactsAt(w.In) {
+			// (the lookup may be wrapped in a small predicate of the secret)
+			for _, cond := range eng.FactsX(w.In) {
 				src, truth, isCO := cond.CommaOk()
 				if !isCO || !truth {
 					continue
 				}
 				if lk, isLk := src.(*ssa.Lookup); isLk {
-					if fr, base, isF := eng.LoadedField(lk.X); isF && fr.Is("db", "secret", "Versions") && eng.Same(lk.Index, w.Val) && (base == w.Addr.X || eng.Same(base, w.Addr.X)) {
+					if fr, base, isF := eng.LoadedField(lk.X); isF && fr.Is("db", "secret", "Versions") && eng.SameX(lk.Index, w.Val) && (base == w.Addr.X || eng.SameX(base, w.Addr.X)) {
 						ok = true
 					}
 				}
 			}
-			c.Check(ok, "R-C02-4", w.Fn, w.In.Pos(), eng.InstrStr(w.In), "a version becomes active only on the present edge of a lookup of that very version in the same secret (the active version always exists)", "holding here: "+eng.FactsString(w.In))
+			c.Check(ok, "R-C02-4", w.Fn, w.In.Pos(), eng.InstrStr(w.In), "a version becomes active only on the present edge of a lookup of that very version in the same secret (the active version always exists)", "holding here: "+factsStr(eng.FactsX(w.In)))
 		}
 	}
 	if n < 2 {
